@@ -5,6 +5,7 @@ import RzilVerif.Model.DriverC18
 import RzilVerif.Model.DriverPP
 import RzilVerif.Model.DriverSem
 import RzilVerif.Model.DriverMeta
+import RzilVerif.Model.Operands
 open Rzil
 
 def dispatch (st : DState) (line : String) : DState × String :=
@@ -28,7 +29,13 @@ def dispatch (st : DState) (line : String) : DState × String :=
             | none =>
               match handleMeta xs with
               | some r => (st, toString r)
-              | none => (st, "(error bad-request)")
+              | none =>
+                match Operands.handleOperands xs with
+                | some r => (st, toString r)
+                | none =>
+                  match Operands.handleEnum xs with
+                  | some r => (st, toString r)
+                  | none => (st, "(error bad-request)")
   | some _ => (st, "(error bad-request)")
 
 partial def loop (hin : IO.FS.Stream) (hout : IO.FS.Stream) (st : DState) : IO Unit := do
